@@ -8,6 +8,9 @@
 //	C. builders vs recognisers vs extractors for every hash / contract length 0..300 and
 //	   65535..65537 (P2WPKH, P2WSH, Retire, Register, CallContract), against reference
 //	   encoders / recognisers written from the documented shapes.
+//	D. the other direction: every single-byte edit, every push re-encoding and every
+//	   single-instruction edit of the builder outputs through the recognisers, against the
+//	   reference recognisers and "recognised => builder(extracted operand) is this program".
 package main
 
 import (
@@ -817,6 +820,302 @@ func partC(run *ev.Run, total *report) {
 	total.merge(r)
 }
 
+// ---------- part D: the neighbourhood of the standard shapes (recogniser => builder) ----------
+//
+// Part C goes builder -> recogniser. Part D goes the other way: it enumerates programs that are
+// NOT builder outputs but lie next to one, and demands (1) the seven recognisers equal the
+// reference recognisers written on raw bytes and (2) whenever a recogniser of a shape with an
+// extractor says yes, builder(extractor(program)) is that very program.
+//
+//	D1 every single-byte substitution, insertion and deletion of every builder output
+//	D2 every combination of push encodings of its instructions (OP_0 / OP_N / DATA_n /
+//	   PUSHDATA1 / PUSHDATA2 / PUSHDATA4 - every form that can carry the data)
+//	D3 one instruction inserted at every position (6 atoms), each instruction deleted or
+//	   doubled, adjacent instructions swapped
+
+// pushEncodings lists every instruction encoding that pushes exactly d.
+func pushEncodings(d []byte) [][]byte {
+	n := len(d)
+	var out [][]byte
+	if n == 0 {
+		out = append(out, []byte{0x00})
+	}
+	if n == 1 && d[0] >= 1 && d[0] <= 16 {
+		out = append(out, []byte{0x50 + d[0]})
+	}
+	if n >= 1 && n <= 75 {
+		out = append(out, append([]byte{byte(n)}, d...))
+	}
+	if n < 256 {
+		out = append(out, append([]byte{0x4c, byte(n)}, d...))
+	}
+	if n < 65536 {
+		out = append(out, append([]byte{0x4d, byte(n), byte(n >> 8)}, d...))
+	}
+	out = append(out, append([]byte{0x4e, byte(n), byte(n >> 8), byte(n >> 16), byte(n >> 24)}, d...))
+	return out
+}
+
+type shapeBuilder struct {
+	name  string
+	build func([]byte) ([]byte, error)
+}
+
+var shapeBuilders = []shapeBuilder{
+	{"P2WPKHProgram", vmutil.P2WPKHProgram},
+	{"P2WSHProgram", vmutil.P2WSHProgram},
+	{"RetireProgram", vmutil.RetireProgram},
+	{"RegisterProgram", vmutil.RegisterProgram},
+	{"CallContractProgram", vmutil.CallContractProgram},
+}
+
+type variantCase struct {
+	Builder string `json:"neighbour_of_builder"`
+	Length  int    `json:"operand_length"`
+	Edit    string `json:"edit"`
+	Program string `json:"program"`
+	Detail  string `json:"detail"`
+}
+
+// checkVariant: the oracle of part D for one program.
+func (r *report) checkVariant(p []byte, origin shapeBuilder, l int, edit string) {
+	exact := make([]byte, len(p))
+	copy(exact, p)
+	p = exact
+	r.evals++
+	r.counters["neighbour_programs"]++
+	vc := variantCase{Builder: origin.name, Length: l, Edit: edit, Program: short(p)}
+	fail := func(key, detail string) {
+		vc.Detail = detail
+		r.violation(key, fmt.Sprintf("program %s (%s of %s(%d bytes)): %s", short(p), edit, origin.name, l, detail), vc)
+	}
+	got, pnc := safeRecog(p)
+	r.counters["recogniser_evaluations"] += 7
+	if pnc != nil {
+		fail("panic-in-recogniser", fmt.Sprint(pnc))
+		return
+	}
+	want := refRecog(p)
+	// (2) recognised => the program is what the builder makes of the extracted operand
+	rebuilt := func(shape string, extract func() ([]byte, error), build func([]byte) ([]byte, error), observeOnly bool) bool {
+		var operand, again []byte
+		var err error
+		func() {
+			defer func() {
+				if x := recover(); x != nil {
+					err = fmt.Errorf("panic: %v", x)
+				}
+			}()
+			if operand, err = extract(); err == nil {
+				again, err = build(append([]byte{}, operand...))
+			}
+		}()
+		if err == nil && bytes.Equal(again, p) {
+			return true
+		}
+		if observeOnly {
+			r.counters["obs_"+shape+"_recogniser_accepts_neighbour_the_builder_never_makes"]++
+			return true
+		}
+		fail("recogniser-accepts-program-the-builder-never-makes:"+shape,
+			fmt.Sprintf("recognised as %s, extracted operand %s (err %v), builder makes %s of it", shape, short(operand), err, short(again)))
+		return false
+	}
+	segwitHash := func() ([]byte, error) { return segwit.GetHashFromStandardProg(p) }
+	okAll := true
+	if got.P2WPKH {
+		okAll = rebuilt("P2WPKH", segwitHash, vmutil.P2WPKHProgram, false) && okAll
+	}
+	if got.P2WSH {
+		okAll = rebuilt("P2WSH", segwitHash, vmutil.P2WSHProgram, false) && okAll
+	}
+	if got.Call {
+		okAll = rebuilt("CallContract", func() ([]byte, error) { h, err := bcrp.ParseContractHash(p); return h[:], err }, vmutil.CallContractProgram, false) && okAll
+	}
+	if got.BCRP {
+		// documented as liberal about the encoding of the contract push (NOTES.md): observation
+		rebuilt("bcrp", func() ([]byte, error) { return bcrp.ParseContract(p) }, vmutil.RegisterProgram, true)
+	}
+	if got.Straight {
+		a, _ := vmutil.DefaultCoinbaseProgram()
+		b, _ := vmutil.RetireProgram(nil)
+		if !bytes.Equal(p, a) && !bytes.Equal(p, b) {
+			fail("recogniser-accepts-program-the-builder-never-makes:Straightforward", "neither DefaultCoinbaseProgram() nor RetireProgram(nil)")
+			okAll = false
+		}
+	}
+	if got.P2W != (got.P2WPKH || got.P2WSH || got.Straight) {
+		fail("recogniser-IsP2WScript-is-not-the-union-of-its-shapes", fmt.Sprintf("%+v", got))
+		okAll = false
+	}
+	// (1) the documented shapes on raw bytes
+	if got != want {
+		fail("recogniser-differs-from-documented-shape", fmt.Sprintf("recognisers say %+v, documented shapes %+v", got, want))
+		okAll = false
+	}
+	if !okAll {
+		return
+	}
+	if got.P2WPKH || got.P2WSH || got.BCRP || got.Call || got.Straight {
+		r.outcomes["neighbour-recognised"]++
+		r.nontrivial++
+	} else {
+		r.outcomes["neighbour-not-recognised"]++
+	}
+}
+
+func partD(run *ev.Run, total *report) {
+	lengths := []int{0, 1, 2, 19, 20, 21, 31, 32, 33, 75, 76}
+	if run.Thorough() {
+		lengths = append(lengths, 16, 64, 255, 256, 257, 300)
+	}
+	fills := []func(l int) []byte{
+		func(l int) []byte {
+			b := make([]byte, l)
+			for i := range b {
+				b[i] = byte(i*13 + l)
+			}
+			return b
+		},
+		// a one-byte operand that also has an OP_N form; longer: bytes that are push opcodes themselves
+		func(l int) []byte {
+			b := make([]byte, l)
+			for i := range b {
+				b[i] = []byte{0x01, 0x00, 0x4c, 0x14, 0x20, 0x6a, 0x51}[i%7]
+			}
+			return b
+		},
+	}
+	atoms := [][]byte{{0x61}, {0x00}, {0x51}, {0x6a}, {0x01, 0xaa}, {0x4c, 0x00}}
+
+	type job struct {
+		sb   shapeBuilder
+		l    int
+		base []byte
+	}
+	var jobs []job
+	seen := map[string]int{}
+	for _, sb := range shapeBuilders {
+		for _, l := range lengths {
+			for _, f := range fills {
+				base, err := sb.build(f(l))
+				if err != nil {
+					ev.Fatal("part D: %s(%d bytes): %v", sb.name, l, err)
+				}
+				if at, dup := seen[string(base)]; dup { // P2WPKHProgram and P2WSHProgram build the same bytes: one base
+					if !strings.Contains(jobs[at].sb.name, sb.name) {
+						jobs[at].sb.name += "/" + sb.name
+					}
+				} else {
+					seen[string(base)] = len(jobs)
+					jobs = append(jobs, job{sb, l, base})
+				}
+			}
+		}
+	}
+	reports := make([]*report, len(jobs))
+	var wg sync.WaitGroup
+	sem := make(chan struct{}, 6)
+	for ji, j := range jobs {
+		wg.Add(1)
+		sem <- struct{}{}
+		go func(ji int, j job) {
+			defer wg.Done()
+			defer func() { <-sem }()
+			r := newReport()
+			reports[ji] = r
+			if run.OutOfTime() {
+				r.counters["neighbour_bases_skipped_out_of_time"]++
+				return
+			}
+			base := j.base
+			r.counters["neighbour_bases"]++
+			r.checkVariant(base, j.sb, j.l, "unchanged")
+			// D1: byte edits
+			for pos := 0; pos <= len(base); pos++ {
+				for b := 0; b < 256; b++ {
+					if pos == len(base) || base[pos] != byte(b) { // else: same program as the insertion one position later
+						p := make([]byte, 0, len(base)+1)
+						p = append(append(append(p, base[:pos]...), byte(b)), base[pos:]...)
+						r.checkVariant(p, j.sb, j.l, fmt.Sprintf("byte %02x inserted at %d", b, pos))
+					}
+					if pos < len(base) && byte(b) != base[pos] {
+						q := append([]byte{}, base...)
+						q[pos] = byte(b)
+						r.checkVariant(q, j.sb, j.l, fmt.Sprintf("byte at %d replaced by %02x", pos, b))
+					}
+				}
+				if pos < len(base) && (pos+1 == len(base) || base[pos] != base[pos+1]) {
+					q := append(append([]byte{}, base[:pos]...), base[pos+1:]...)
+					r.checkVariant(q, j.sb, j.l, fmt.Sprintf("byte at %d deleted", pos))
+				}
+			}
+			r.counters["neighbour_byte_edit_bases"]++
+			// D2 / D3 work on the instructions of the builder output
+			ri, ok := refParse(base)
+			if !ok {
+				ev.Fatal("part D: builder output %s does not parse", short(base))
+			}
+			alts := make([][][]byte, len(ri))
+			for i, in := range ri {
+				own := base[in.off : in.off+in.ln]
+				if isPushOp(in.op) {
+					alts[i] = pushEncodings(in.data)
+				} else {
+					alts[i] = [][]byte{own}
+				}
+			}
+			var prod func(i int, acc []byte, desc []string)
+			prod = func(i int, acc []byte, desc []string) {
+				if i == len(ri) {
+					r.checkVariant(acc, j.sb, j.l, "push encodings "+strings.Join(desc, ","))
+					r.checkProgram(acc, len(acc) <= 400)
+					r.counters["neighbour_push_encoding_combinations"]++
+					return
+				}
+				for _, enc := range alts[i] {
+					prod(i+1, append(append([]byte{}, acc...), enc...), append(append([]string{}, desc...), fmt.Sprintf("%02x", enc[0])))
+				}
+			}
+			prod(0, nil, nil)
+			piece := func(i int) []byte { return base[ri[i].off : ri[i].off+ri[i].ln] }
+			join := func(parts ...[]byte) []byte {
+				var out []byte
+				for _, p := range parts {
+					out = append(out, p...)
+				}
+				return out
+			}
+			d3 := func(p []byte, edit string) {
+				r.checkVariant(p, j.sb, j.l, edit)
+				r.checkProgram(p, len(p) <= 400)
+				r.counters["neighbour_instruction_edits"]++
+			}
+			for i := 0; i <= len(ri); i++ {
+				off := len(base)
+				if i < len(ri) {
+					off = ri[i].off
+				}
+				for _, a := range atoms {
+					d3(join(base[:off], a, base[off:]), fmt.Sprintf("instruction %x inserted before #%d", a, i))
+				}
+				if i < len(ri) {
+					end := off + ri[i].ln
+					d3(join(base[:off], base[end:]), fmt.Sprintf("instruction #%d deleted", i))
+					d3(join(base[:end], piece(i), base[end:]), fmt.Sprintf("instruction #%d doubled", i))
+					if i+1 < len(ri) {
+						d3(join(base[:off], piece(i+1), piece(i), base[ri[i+1].off+ri[i+1].ln:]), fmt.Sprintf("instructions #%d and #%d swapped", i, i+1))
+					}
+				}
+			}
+		}(ji, j)
+	}
+	wg.Wait()
+	for _, r := range reports {
+		total.merge(r)
+	}
+}
+
 func main() {
 	run := ev.Start("C09", "exploration")
 	total := newReport()
@@ -824,6 +1123,7 @@ func main() {
 	partA(run, maxLen, total)
 	partB(run, total)
 	partC(run, total)
+	partD(run, total)
 
 	run.Add("evaluations", total.evals)
 	run.Add("distinct_nontrivial", total.nontrivial)
@@ -853,10 +1153,10 @@ func main() {
 		run.Violation(v.key, v.what, v.rc)
 	}
 	run.Set("max_string_length_exhaustive", maxLen)
-	run.Set("rule", fmt.Sprintf("A: every byte string of length 0..%d; B: every prefix of every DATA_n/PUSHDATA1/2/4/JUMP/JUMPIF form (with and without a leading NOP and trailing ops) and every sequence of <= %d atoms from a 12-atom alphabet with every jump address 0..len+1 and 2^32-1; C: 5 builders x lengths 0..300, 65535..65537 x 4 fills. "+
-		"evaluations = programs put through the parse oracle (+ builder cases). distinct_nontrivial = parsable programs of >= 2 instructions (all distinct inside A; B and C add their own) plus built programs that a recogniser accepted.", maxLen, run.Pick(2, 3)))
+	run.Set("rule", fmt.Sprintf("A: every byte string of length 0..%d; B: every prefix of every DATA_n/PUSHDATA1/2/4/JUMP/JUMPIF form (with and without a leading NOP and trailing ops) and every sequence of <= %d atoms from a 12-atom alphabet with every jump address 0..len+1 and 2^32-1; C: 5 builders x lengths 0..300, 65535..65537 x 4 fills; D: for every builder output with operand length in {0,1,2,19,20,21,31,32,33,75,76%s} x 2 fills: every single-byte substitution / insertion / deletion, every combination of the push encodings (OP_0, OP_N, DATA_n, PUSHDATA1/2/4) of its instructions, one instruction from a 6-atom alphabet inserted at every position, every instruction deleted / doubled, adjacent instructions swapped - all seven recognisers against byte-level reference recognisers, and recognised => builder(extractor(program)) == program. "+
+		"evaluations = programs put through the parse oracle (+ builder cases). distinct_nontrivial = parsable programs of >= 2 instructions (all distinct inside A; B and C add their own) plus built programs that a recogniser accepted plus neighbour programs of part D (distinct per builder output) that a recogniser accepted.", maxLen, run.Pick(2, 3), map[bool]string{false: "", true: ",16,64,255,256,257,300"}[run.Thorough()]))
 	run.Assume("normalised comparison: pushes by data, jumps by target instruction index (raw address when the target is no instruction boundary), other instructions by opcode - the assembler always emits minimal pushes")
 	run.Assume("the text round trip is demanded for programs up to a few hundred bytes (statement's quantifier); for 64 KiB pushes a failure is only counted (bufio.Scanner token limit)")
-	run.Assume("recogniser/builder agreement is asserted over builder outputs (statement's quantifier); IsBCRPScript accepting non-builder encodings of the last push is counted as an observation")
+	run.Assume("recogniser/builder agreement is asserted in both directions: over builder outputs (part C) and over their edit / re-encoding neighbourhood (part D: a recognised program must be the builder's output for the extracted operand); only IsBCRPScript, whose documented shape leaves the last instruction open, accepting non-builder encodings of the contract push is counted as an observation")
 	run.Finish()
 }
